@@ -90,6 +90,25 @@ Theorem C19_model_passes_oracle_part : forall s,
   (exists r, s = 0 :: r \/ s = 1 :: r \/ s = 2 :: r \/ s = 3 :: r \/ s = 5 :: r \/ s = 11 :: r) -> verdict190 s (run190 s) = true.
 Proof. exact model_passes_oracle190_part. Qed.
 Print Assumptions C19_model_passes_oracle_part.
+Theorem C19_model_passes_oracle_flag : forall r, verdict190 (7 :: r) (run190 (7 :: r)) = true.
+Proof. exact model_passes_oracle190_flag. Qed.
+Print Assumptions C19_model_passes_oracle_flag.
+Theorem C19_model_passes_oracle_set_flag : forall r, verdict190 (6 :: r) (run190 (6 :: r)) = true.
+Proof. exact model_passes_oracle190_set_flag. Qed.
+Print Assumptions C19_model_passes_oracle_set_flag.
+Theorem C19_model_passes_oracle_content_format : forall r, verdict190 (8 :: r) (run190 (8 :: r)) = true.
+Proof. exact model_passes_oracle190_cf. Qed.
+Print Assumptions C19_model_passes_oracle_content_format.
+Theorem C19_model_passes_oracle_set_path : forall r, verdict190 (4 :: r) (run190 (4 :: r)) = true.
+Proof. exact model_passes_oracle190_set_path. Qed.
+Print Assumptions C19_model_passes_oracle_set_path.
+(* set_from_message of coap-message 0.2 (kind 9) and 0.3 (kind 10) into ANY destination state: per number the
+   destination's values followed by the source's; for source codes that are a byte *)
+Theorem C19_model_passes_oracle_copy : forall k r, k = 9 \/ k = 10 ->
+  (forall src r', rd_packet r = Some (src, r') -> class_to_byte (code (hdr src)) < 256) ->
+  verdict190 (k :: r) (run190 (k :: r)) = true.
+Proof. exact model_passes_oracle190_copy. Qed.
+Print Assumptions C19_model_passes_oracle_copy.
 
 Example C19_example :
   let p := set_path packet_new [47; 97; 47; 98] in
